@@ -109,7 +109,7 @@ static void run_history(int family /*0 fast,1 HC*/, int nops, const char* mode, 
     TR("=== history family=%d geom=%d ring=%zu", family, g.kind, g.ringSize);
     for (i = 0; i < nops; i++) {
         int op = (int)rndn(100); size_t n = pick_bsize(); u8* src;
-        if (c17 && family == 1) op = (op < 55) ? 60 : 5;     /* mostly destSize/continue chains */
+        if (c17 && family == 1) op = (op < 55) ? 99 : (op < 90 ? 5 : 61);     /* mostly continue_destSize / continue chains, some saveDict */
         if (op < 60 || (c17 && op == 5)) {
             /* ---- continue ---- */
             int acc = (int[]){1,1,1,2,8,65537,0}[rndn(7)]; int cap, r;
@@ -145,7 +145,9 @@ static void run_history(int family /*0 fast,1 HC*/, int nops, const char* mode, 
             if (got < 0 || got > want || got > 65536) { rec_t rr; rec_begin(&rr, OP_STREAMBLOCK); c_fail(&rr, "saveDict_bad_return"); }
             else afterSaved = got;
             /* history may shrink to `got` bytes: the decoder still holds the full logical history (a superset) */
-            if (g.kind == 3 || g.kind == 0) { /* after saving, the old location may be overwritten */ if (lastSrc && rndp(50)) memset((void*)lastSrc, 0xEE, lastN); }
+            /* after saving, the old location may be overwritten - unless the last block itself lived in the safe buffer (placed right after an earlier save):
+             * then its old location overlaps the bytes just saved, which the caller must of course leave alone */
+            if (g.kind == 3 || g.kind == 0) { if (lastSrc && !(lastSrc >= safe && lastSrc < safe + 65536 + MAXBLOCK + 8) && rndp(50)) memset((void*)lastSrc, 0xEE, lastN); }
         } else if (op < 76 && !c17) {
             afterSaved = -1;
             /* ---- loadDict (fast: loadDict / loadDictSlow; HC: loadDictHC) ---- */
